@@ -431,7 +431,7 @@ ares_status_t ares_reinit(ares_channel_t *channel)
 #ifdef CARES_VERIF
     if (ares_verif_sync_cb != NULL) {
       ares_verif_sync_cb(ARES_VERIF_SYNC_SHARED_READ, &channel->reinit_thread,
-                         channel->reinit_thread);
+                         NULL);
     }
 #endif
     if (channel->reinit_thread != NULL) {
@@ -452,7 +452,7 @@ ares_status_t ares_reinit(ares_channel_t *channel)
 #ifdef CARES_VERIF
     if (ares_verif_sync_cb != NULL && status == ARES_SUCCESS) {
       ares_verif_sync_cb(ARES_VERIF_SYNC_SHARED_WRITE, &channel->reinit_thread,
-                         channel->reinit_thread);
+                         ARES_VERIF_SHARED_NEW_HANDLE);
     }
 #endif
     if (status != ARES_SUCCESS) {
